@@ -481,3 +481,82 @@ def run_stale_size(prog, rep):
     if n < 5:
         raise AnalysisBroken('R-STALE: only %d size-holding locals found' % n)
     return rule
+
+
+NAME_APIS = {'H5Iget_name': (1, 2), 'H5Fget_name': (1, 2), 'H5Lget_name_by_idx': (5, 6), 'H5Aget_name': (2, 1)}
+
+
+def run_namebuf(prog, rep):
+    """HDF5 'get name' calls copy at most size-1 characters and return the full length: the buffer that receives a name has
+    (queried length + 1) elements and that is the size announced; anything smaller silently truncates the name (and the
+    truncated name is then used to unlink / look up another object)"""
+    rule = rep.rule('R-NAMEBUF', 'a buffer filled by H5Iget_name / H5Fget_name / H5Lget_name_by_idx has (queried length + 1) elements and exactly that size is announced', floor=3)
+    n = 0
+
+    def strip_casts(t):
+        while isinstance(t, tuple) and t and t[0] == 'cast':
+            t = t[2]
+        return t
+
+    for f in sorted(prog.funcs.values(), key=lambda f: (f.file, f.line)):
+        if f.body is None or not f.q.startswith('nix::hdf5::'):
+            continue
+        calls = [c for c in f.calls() if (c.callee or {}).get('name') in NAME_APIS]
+        if not calls:
+            continue
+        # variables that hold the answer of a size query (buffer null) of the same API
+        lens = {}
+        for x in f.walk():
+            rhs = None
+            if x.k == 'var' and x.c and x.c[0] is not None:
+                rhs, lid, nm = unwrap(x.c[0]), x.get('lid'), x.get('name')
+            elif x.k == 'assign' and unwrap(x.c[0]).k == 'ref':
+                rhs, lid, nm = unwrap(x.c[1]), unwrap(x.c[0]).decl.get('lid'), unwrap(x.c[0]).decl.get('name')
+            if rhs is not None and rhs.k == 'call' and (rhs.callee or {}).get('name') in NAME_APIS:
+                bi, si = NAME_APIS[rhs.callee['name']]
+                a = real_args(rhs)
+                if term(unwrap(a[bi])) == ('k', None):
+                    lens[('v', lid, nm)] = rhs.callee['name']
+        for c in calls:
+            bi, si = NAME_APIS[c.callee['name']]
+            a = real_args(c)
+            bt, st = term(unwrap(a[bi])), strip_casts(term(unwrap(a[si])))
+            if bt == ('k', None):
+                continue
+            n += 1
+            key = '%s|%s|%d' % (f.q, c.callee['name'], len([x for x in calls if x.id < c.id]))
+
+            def is_len_plus_1(t):
+                t = strip_casts(t)
+                return isinstance(t, tuple) and t[0] == 'b' and t[1] == '+' and ((strip_casts(t[2]) in lens and t[3] == ('k', 1)) or (strip_casts(t[3]) in lens and t[2] == ('k', 1)))
+            ok = False
+            why = 'buffer %s, announced size %s' % (a[bi].src(30), a[si].src(30))
+            # v.data() / &v[0] with v.size(), v constructed with len + 1 elements
+            bv = None
+            if isinstance(bt, tuple) and bt[0] == 'm' and bt[1] == 'data':
+                bv = bt[2]
+            elif isinstance(bt, tuple) and bt[0] == 'u' and bt[1] == '&' and isinstance(bt[2], tuple) and bt[2][0] == 'op' and bt[2][1] == '[]':
+                bv = bt[2][2]
+            elif isinstance(bt, tuple) and bt[0] == 'v':
+                bv = bt
+            if bv is not None and isinstance(bv, tuple) and bv[0] == 'v':
+                decl = [v for v in f.walk() if v.k == 'var' and v.get('lid') == bv[1]]
+                init = term(unwrap(decl[0].c[0])) if decl and decl[0].c and decl[0].c[0] is not None else None
+                nelem = None
+                if isinstance(init, tuple) and init[0] == 'new' and len(init) > 2 and 'std::' in str(init[1]):
+                    nelem = init[2]
+                elif decl and decl[0].c and decl[0].c[0] is not None:
+                    nw = [y for y in decl[0].c[0].walk() if y.k == 'new']
+                    if nw and nw[0].c:
+                        sz = [y for y in nw[0].c if y is not None]
+                        nelem = term(unwrap(sz[0])) if sz else None
+                size_is_buf = st == ('m', 'size', bv)
+                if nelem is not None and is_len_plus_1(nelem) and (size_is_buf or is_len_plus_1(st)):
+                    ok = True
+                else:
+                    why += '; the buffer has %s elements' % (decl[0].c[0].src(40) if decl and decl[0].c and decl[0].c[0] is not None else '?')
+            rule.check(ok, key, rep.where(c), f.label(), 'buffer of (queried length + 1) elements, that size announced',
+                       '%s: not (length returned by the size query + 1) - the call copies at most size-1 characters, the name comes back truncated' % why)
+    if n < 3:
+        raise AnalysisBroken('R-NAMEBUF: only %d name buffers found' % n)
+    return rule
